@@ -9,11 +9,14 @@ CFG = {
             260,
             1200
         ],
-        ["peeraddrace", 12, 100]
+        ["peeraddrace", 12, 100],
+        ["peergoc", 240, 1500]
     ],
     "engine_timeout": 1500,
-    "rule": "peerbook: random scenarios over 2-3 real listening channels (+ sometimes a client-only channel) in one process: Connect (plain, through an alias host:port so that the announced host:port differs, to itself, to a closed channel, with Channel.Close during the dial), graceful Connection.Close from either side, simultaneous closes from both sides / of every connection of a channel, abrupt failure (raw socket closed), idle sweep (stub clock + ticker), PeerList Add/Remove on the channel list and two isolated sub-channel lists, RootPeers().GetOrAdd, Channel.Close (single, double, two channels at once); about a third of the connects park the activating goroutine (dial side round 1 / mismatch round 2, accept side) at peer.addConnection.afterCheck while 1-2 further operations run (close the parked channel, sweep it, fail or remotely close the parked link, close another connection to the same peer, list operations); every 12th scenario forces the window inside PeerList.Add (schedule point peerlist.Add.afterRootAdd, added by this check to the library copy: the peer loses its only connection between RootPeerList.Add and addSC; infeasible, not a failure, when the library has no such point). One case per (scenario, channel): the channel's macro script (handshakes, observed state changes, list operations, parks) and a snapshot after every operation. Non-trivial = the channel had at least one connection; distinct by script.",
+    "rule": "peerbook: random scenarios over 2-3 real listening channels (+ sometimes a client-only channel) in one process: Connect (plain, through an alias host:port so that the announced host:port differs, to itself, to a closed channel, with Channel.Close during the dial), graceful Connection.Close from either side, simultaneous closes from both sides / of every connection of a channel, abrupt failure (raw socket closed), idle sweep (stub clock + ticker), PeerList Add/Remove on the channel list and two isolated sub-channel lists, RootPeers().GetOrAdd, Channel.Close (single, double, two channels at once); about a third of the connects park the activating goroutine (dial side round 1 / mismatch round 2, accept side) at peer.addConnection.afterCheck while 1-2 further operations run (close the parked channel, sweep it, fail or remotely close the parked link, close another connection to the same peer, list operations); every 12th scenario forces the window inside PeerList.Add (schedule point peerlist.Add.afterRootAdd, added by this check to the library copy: the peer loses its only connection between RootPeerList.Add and addSC; infeasible, not a failure, when the library has no such point). One case per (scenario, channel): the channel's macro script (handshakes, observed state changes, list operations, parks) and a snapshot after every operation. Non-trivial = the channel had at least one connection; distinct by script. peergoc (get-or-create regions of RootPeerList.Add / GetOrAdd / Get and PeerList.Add / Remove): sub peergoc = scripts of calls on one real channel (channel list, two isolated sub-channel lists, RootPeers() directly) in which a call may be parked at the schedule point rootpeers.Add.afterMiss (between the read-locked miss and the write lock of RootPeerList.Add; added by this check to the library copy -- without it nothing is parked and the scripts are replayed un-parked) and released later: 80 directed cases (every pair and triple of the five entry points, all past the miss before the first write lock, every release order, followed by late callers and a removal) and random scripts of 4-15 operations over 1-3 host:ports; observables = every completed call (goroutine, host:port, code, object), root map, list maps, scCount, objects renamed by first appearance; oracles: every caller's *Peer is the root list's, list entries hold it, scCount = number of lists holding the host:port. Sub peergocnet (oracle only): the same race on the host:port of a real server, forced by the schedule point or hook-free by holding the exported RWMutex of RootPeers() until every adder is queued on its read lock, then: a connection made through one list's peer is listed on the other's, calls through both share it, removing the host:port from one list keeps the peer in the root list when its last connection closes, removing it from all lists lets it leave. Sub peergocstress (oracle only, no hook): 4-8 goroutines add 60-180 fresh host:ports through different entry points behind a per-host:port barrier; pointer identity and scCount. Non-trivial (peergoc) = at least two first-time adders of one host:port were parked at once.",
     "trusted_base": COMMON_TRUSTED + [
+        "regenerated from source and proved equal to the model's step decisions (Gen/GenPeerGoc.v, Gen/GenLockSkel.v, C16_goc_generated, C16_goc_regions): every lock-protected region of RootPeerList.Get/Add/GetOrAdd and PeerList.exists/Add/Remove/GetOrAdd, and RootPeerList.onClosedConnRemoved (C16_goc_collector_generated: equal to the collector steps of PeerBook.v run without interleaving); the hints printed in Gen/GenPeerGoc.v are trusted (newPeer(...) with exactly these arguments = the fresh object, p.addSC()/p.delSC() = +-1 on scCount of p, a *peerScore is identified with its Peer, heap operations dropped)",
+        "Model/PeerGoc.v has no deletion from the root list (that window is the known finding c16:peer-collected-during-add, modelled in PeerBook.v); addSC and the list insertion are one step (the list is write-locked, only the collector reads scCount in between)",
         "modelled by hand (tied by correspondence): Channel.addConnection/connectionActive/addConnectionToPeer/removeClosedConn/connectionCloseStateChange (bookkeeping part), Connect's mismatch branch, Peer.addConnection/removeConnection/connectionCloseStateChange/addSC/delSC/canRemove, PeerList.Add/Remove (reference counts), RootPeerList.Add/Get/GetOrAdd/onClosedConnRemoved; regenerated from source: connection state and direction constants",
         "atomicity granularity: one model step per lock-protected region / state read; merged actions are listed in the header of Model/PeerBook.v",
         "the connection state machine itself (who changes the state when) is environment: every forward change at any time, each followed by a close-state callback",
